@@ -37,11 +37,32 @@ def make_case(ons, vow, sep, filling, words_per_utt, with_phones, strip, toleran
     def oracle(out):
         S = Separator(*sep)
         closed = all(o[i:] in ons for o in ons for i in range(1, len(o)))
+        multi = with_phones and any(len(ph) > 1 for ws in words_per_utt for w in ws for ph in w)
         if out[0] != 'ok':
-            if valid and closed and not tolerant:
-                return 'a text of syllabifiable words raised ' + out[1]
             if out[1] != 'ValueError':
                 return 'failure is not a ValueError: ' + out[1]
+            if valid and closed and not tolerant:
+                if not multi:
+                    return 'a text of syllabifiable words raised ' + out[1]
+                # multi-character phones: the words are syllabifiable character by character, so the
+                # only legitimate reason to refuse the utterance is a syllable boundary inside a phone
+                plain = impl_syllabify(ons, vow, sep, filling, [render_utt(ws, sep, False) for ws in words_per_utt], False, False)
+                if plain[0] != 'ok':
+                    return 'a text of syllabifiable words raised %s (also without phone separators)' % plain[1]
+                cut = False
+                for ws, o in zip(words_per_utt, plain[1]):
+                    for w, wo in zip(ws, S.tokenize(o, 'word', keep_boundaries=True)):
+                        pb, k = set(), 0
+                        for ph in w:
+                            k += len(ph)
+                            pb.add(k)
+                        k = 0
+                        for syl in S.tokenize(wo, 'syllable', keep_boundaries=False):
+                            k += len(syl)
+                            if k not in pb:
+                                cut = True
+                if not cut:
+                    return 'a text of syllabifiable words raised ValueError although no syllable boundary falls inside a phone'
             return None
         outs = out[1]
         # per-utterance behaviour: tolerant output = strict outputs of the accepted utterances, in order
@@ -143,11 +164,71 @@ def load_lang(name):
     return None
 
 
+def group_phones(rng, word):
+    out, i = [], 0
+    while i < len(word):
+        n = 2 if i + 1 < len(word) and rng.random() < 0.3 else 1
+        out.append(''.join(word[i:i + n]))
+        i += n
+    return out
+
+
+def group_phones_long(rng, word):
+    """groups of 1-4 adjacent characters, vowels included (e.g. 'al', 'tsa')"""
+    out, i = [], 0
+    while i < len(word):
+        n = rng.choice([1, 1, 2, 3, 4])
+        out.append(''.join(word[i:i + n]))
+        i += n
+    return out
+
+
+def group_phones_onsets(rng, word, ons, vow):
+    """the usual case in real data: a whole consonant cluster that is a listed onset is one phone (an affricate,
+    a consonant + glide written as one symbol); the other characters stay single phones"""
+    out, i = [], 0
+    while i < len(word):
+        j = i
+        while j < len(word) and word[j] not in vow:
+            j += 1
+        run = ''.join(word[i:j])
+        if len(run) > 1 and run in ons and rng.random() < 0.8:
+            out.append(run)
+        elif len(run) > 2 and run[1:] in ons and rng.random() < 0.5:
+            out.extend([run[0], run[1:]])
+        else:
+            out.extend(run)
+        if j < len(word):
+            out.append(word[j])
+        i = j + 1
+    return out
+
+
+# Switch for the families with long / onset-aligned phone groups: when True, utterances in which a syllable boundary
+# falls inside a multi-character phone are left out of them (used while Syll/Model.v lagged behind commit 88bc4d9,
+# IndexError -> ValueError; the pair-grouping family and corpus/C14 always exercise that case).
+AVOID_PHONE_CUT = False
+
+
+def cuts_a_phone(ons, vow, sep, filling, words):
+    """the utterance is refused with its phone separators but accepted without them"""
+    a = impl_syllabify(ons, vow, sep, filling, [render_utt(words, sep, True)], False, False)
+    b = impl_syllabify(ons, vow, sep, filling, [render_utt(words, sep, False)], False, False)
+    return a[0] != 'ok' and b[0] == 'ok'
+
+
+def consonant_onsets(ons, vow):
+    return [o for o in ons if not any(c in vow for c in o)]
+
+
 def main():
     ck = Check('C14')
     failures = ck.prove()
     rng = ck.rng
     cases = []
+    for c in load_corpus('C14'):
+        cases.append(make_case(c['onsets'], c['vowels'], tuple(c['sep']), c['filling'], c['utts'], c['with_phones'], c['strip'], c['tolerant'],
+                               'corpus', c['valid']))
     n = 3000 if ck.thorough else 400
     for k in range(n):
         ons, vow, cons = gen_inventory(rng)
@@ -159,8 +240,23 @@ def main():
             utts.append([gen_word(rng, ons, vow, cons, ok or rng.random() < 0.5) for _ in range(rng.randint(1, 4))])
         with_phones = sep[0] is not None and rng.random() < 0.6
         filling = rng.random() < 0.3
-        cases.append(make_case(ons, vow, sep, filling, utts, with_phones, rng.random() < 0.4, rng.random() < 0.4,
-                               'generated-%s' % ('valid' if valid else 'mixed'), valid))
+        fam = 'generated-%s' % ('valid' if valid else 'mixed')
+        r = rng.random()
+        if with_phones and r < 0.25:
+            # multi-character phones: adjacent characters of a word grouped into one phone
+            utts = [[group_phones(rng, w) for w in ws] for ws in utts]
+            fam += '-multichar'
+        elif with_phones and r < 0.55:
+            # longer groups, and groups aligned with the onsets
+            if r < 0.45:
+                utts = [[group_phones_onsets(rng, w, ons, vow) for w in ws] for ws in utts]
+                fam += '-multichar-onsets'
+            else:
+                utts = [[group_phones_long(rng, w) for w in ws] for ws in utts]
+                fam += '-multichar-long'
+            if AVOID_PHONE_CUT:
+                utts = [ws for ws in utts if not cuts_a_phone(ons, vow, sep, filling, ws)] or [[[vow[0]]]]
+        cases.append(make_case(ons, vow, sep, filling, utts, with_phones, rng.random() < 0.4, rng.random() < 0.4, fam, valid))
     # histories: ONE Syllabifier instance reused for several calls with different options and
     # overlapping texts; every call must equal the model's answer for that call alone
     for k in range(400 if ck.thorough else 60):
@@ -184,12 +280,48 @@ def main():
             c['oracle'] = (lambda o, fresh=fresh: None if o == fresh else
                            'a reused Syllabifier returns %r, a fresh one %r for the same call' % (o, fresh))
             cases.append(c)
-    # bundled language data, words sampled from their own symbols (single-character vowels only)
-    for lang in ('cspanish', 'catalan', 'chintang', 'japanese'):
-        d = load_lang(lang)
-        if not d:
+    # a vowel-less word completed by the filling vowel: words that are a listed onset (accepted: one syllable without
+    # vowel), other consonant strings (accepted only if they happen to be an onset), next to ordinary words; and the
+    # same texts without the option (refused or dropped)
+    for k in range(800 if ck.thorough else 120):
+        ons, vow, cons = gen_inventory(rng)
+        sep = SEPS[k % len(SEPS)]
+        cons_ons = consonant_onsets(ons, vow)
+        filling = rng.random() < 0.85
+        valid = filling
+        utts = []
+        for _ in range(rng.randint(1, 3)):
+            ws = []
+            for _ in range(rng.randint(1, 3)):
+                r = rng.random()
+                if r < 0.4 and cons_ons:
+                    ws.append(list(rng.choice(cons_ons)))
+                elif r < 0.55:
+                    w = [rng.choice(cons) for _ in range(rng.randint(1, 3))]
+                    valid = valid and ''.join(w) in ons
+                    ws.append(w)
+                else:
+                    ws.append(gen_word(rng, ons, vow, cons, True))
+            utts.append(ws)
+        if not any(not any(c in vow for c in w) for ws in utts for w in ws):
+            utts[-1].append(list(rng.choice(cons_ons or cons)))
+            valid = valid and bool(cons_ons)
+        with_phones = sep[0] is not None and rng.random() < 0.5
+        fam = 'vowel-less-%s' % ('filling' if filling else 'no-filling')
+        if with_phones and rng.random() < 0.4:
+            utts = [[group_phones_onsets(rng, w, ons, vow) for w in ws] for ws in utts]
+            if AVOID_PHONE_CUT:
+                utts = [ws for ws in utts if not cuts_a_phone(ons, vow, sep, filling, ws)] or [[list(rng.choice(cons_ons or cons))]]
+            fam += '-multichar'
+        cases.append(make_case(ons, vow, sep, filling, utts, with_phones, rng.random() < 0.4, rng.random() < 0.4, fam, valid))
+    # bundled language data, words sampled from their own symbols (single-character vowels only): strict and tolerant
+    # mode, every separator triple, the filling vowel, phones grouped along the onsets (consonant + glide as one phone)
+    langs = [(l, l, l) for l in ('cspanish', 'catalan', 'chintang', 'japanese')] + [('aspanish+cspanish', 'aspanish', 'cspanish'), ('qom+english', 'qom', 'english')]
+    for lang, lo, lv in langs:
+        po, pv = os.path.join(DATADIR, lo + '_onsets.txt'), os.path.join(DATADIR, lv + '_vowels.txt')
+        if not (os.path.exists(po) and os.path.exists(pv)):
             continue
-        ons, vow = d
+        ons, vow = Syllabifier.open_datafile(po), Syllabifier.open_datafile(pv)
         if any(len(v) != 1 for v in vow):
             vow1 = [v for v in vow if len(v) == 1]
         else:
@@ -197,10 +329,28 @@ def main():
         cons = sorted({c for o in ons for c in o if c not in vow1})
         if not cons or not vow1:
             continue
-        for k in range(60 if ck.thorough else 12):
+        cons_ons = consonant_onsets(ons, vow1)
+        for k in range(80 if ck.thorough else 16):
+            sep = SEPS[k % len(SEPS)]
+            tolerant = (k // len(SEPS)) % 2 == 0
+            filling = k % 3 == 2
+            # words the inventory syllabifies when it is suffix-closed (the oracle checks that it is): strict mode must accept them
             utts = [[gen_word(rng, ons, vow1, cons, True) for _ in range(rng.randint(1, 4))] for _ in range(rng.randint(1, 3))]
-            sep = SEPS[k % 2]
-            cases.append(make_case(ons, vow, sep, False, utts, rng.random() < 0.5, rng.random() < 0.5, True, 'bundled-' + lang, False))
+            if filling and cons_ons:
+                utts[rng.randrange(len(utts))].append(list(rng.choice(cons_ons)))
+            valid = True
+            if tolerant and rng.random() < 0.5:
+                utts.insert(rng.randint(0, len(utts)), [gen_word(rng, ons, vow1, cons, False)])
+                valid = False
+            with_phones = sep[0] is not None and rng.random() < 0.6
+            fam = 'bundled-%s-%s' % (lang, 'tolerant' if tolerant else 'strict')
+            if with_phones and rng.random() < 0.5:
+                utts = [[group_phones_onsets(rng, w, ons, vow1) for w in ws] for ws in utts]
+                if AVOID_PHONE_CUT:
+                    utts = [ws for ws in utts if not cuts_a_phone(ons, vow, sep, filling, ws)] or [[[vow1[0]]]]
+            ck.count('bundled_sep:%r' % (sep,))
+            ck.count('bundled_filling:%s' % filling)
+            cases.append(make_case(ons, vow, sep, filling, utts, with_phones, rng.random() < 0.5, tolerant, fam, valid))
     # malformed stream: syllable separator already present, empty lists, undefined levels (correspondence only)
     extra = [(['b'], ['a'], (';', '_', ' '), False, ['ba_ ba'], False, False),
              ([], ['a'], (';', '_', ' '), False, ['ba'], False, False),
@@ -222,7 +372,8 @@ def main():
     finish_proof_failures(ck, failures + problems)
     return ck.finish(
         rule='%d generated consonant/vowel inventories with random onset lists (suffix-closed or not, clusters up to 3) x texts of valid and invalid words '
-             'x 4 separator triples x with/without phone separators x strip x tolerant x filling vowel; the bundled data/syllabification inventories with words sampled from their symbols; '
+             'x 4 separator triples x with/without phone separators (single characters, pairs, groups of up to 4 characters, whole onset clusters as one phone) x strip x tolerant x filling vowel; '
+             'vowel-less words with and without the filling vowel; the bundled data/syllabification inventories (4 languages + 2 onset/vowel pairings) with words sampled from their symbols, strict and tolerant, 4 separator triples, filling vowel; '
              'malformed stream. Oracle: tolerant = strict outputs of the accepted utterances, same words/phones once syllable marks are removed, one vowel per syllable, listed and non-extendable onsets. '
              'Non-trivial = a syllable mark placed or an error.' % n,
         assumptions=['vowels are single characters; onsets contain no separator character; an onset contains a vowel symbol only as a one-character glide entry'])
